@@ -4240,6 +4240,10 @@ class Wallet(object):
                 output_arr.append((o['address'], int(o['value'])))
             rt = self.transaction_create(output_arr, input_arr, fee=t['fee'], network=t['network'],
                                          random_output_order=False)
+            # the sequence numbers are part of what the signatures commit to: keep those of the exported transaction
+            for ti, i in zip(rt.inputs, t['inputs']):
+                if i.get('sequence') is not None:
+                    ti.sequence = i['sequence']
             rt.block_height = t['block_height']
             rt.confirmations = t['confirmations']
             rt.witness_type = t['witness_type']
